@@ -376,7 +376,7 @@ func (e *e2eClient) run(script []string, cancelAtWait int, observe bool) e2eResu
 	defer cancel()
 	var rec *recorder
 	if observe {
-		rec = &recorder{cancelAtWait: cancelAtWait, cancel: cancel, cancelReturn: 30 * time.Second}
+		rec = &recorder{cancelAtWait: cancelAtWait, cancel: cancel, cancelReturn: cancelWait()}
 		curRec.Store(rec)
 		defer curRec.Store(nil)
 	}
